@@ -48,6 +48,12 @@ CHECKS = {
  "C20": dict(cat="model_checking", design="3/C20", technique="TLA+ model of surrogate delegation (Surrogate.tla, TLC over all train/query/reload histories) with Surrogate_Trace.tla validating real BinarySurrogate histories over a call-recording backend; save/load pairs judged by the Equiv.tla acceptor",
              text="DelegatesByName and TrainedIsLocal are invariants over every history; each executed history must show, per query, exactly one call of the same-named backend method with the same arguments and returned value when untrained, no backend call and reproduction of the training data when trained, and identical predictions after toJson/fromJson. Saved precipitation/diffusion models (save points after 1-3 solve calls, recording on/off, grids, iterators) must equal their reload into a fresh model item by item, and re-saving must be idempotent.",
              note="scripted binary backend; multicomponent curvature surrogate not covered; HomogenizationModel persistence shares DiffusionModel.toDict"),
+ "C12": dict(cat="model_checking", design="3/C12", technique="TLA+ acceptors: KWN_Trace.tla judges the growth-sign law on every step of the precipitation suite; Scan.tla (a latch + order machine) judges ordered Gibbs-Thomson and supersaturation scans of the real Al-Zr database",
+             text="Partial claim. Decided: growth-sign law (larger than the critical radius grows, smaller shrinks) on every step of every suite run with a fresh lookup table; on the real database the unstable sentinel is upward closed, x_alpha(g) is non-decreasing, dG(x_alpha(g)) = g within the documented offset, dG rises with supersaturation, changes sign at the planar solvus and the four methods agree in sign away from it.",
+             note="real-valued relations as lt/eq/gt under fixed tolerances; scripted closure for the precipitation states; value agreement of the four methods for a stoichiometric precipitate not decided"),
+ "C14": dict(cat="model_checking", design="3/C14", technique="TLA+ model of the cached geometric factors (NucParams.tla) checked by TLC over all setter/read histories, bound by history replay against fresh objects; KWN_Trace.tla for zero nucleation at non-positive driving force in runs; Relations.tla acceptor for zero-propagation, clamps, site accounting and Clemm-Fisher relations",
+             text="Partial claim. Decided: cached factors follow every change (all read-set-read triples + seeded histories, direct and through PrecipitateParameters), rate = 0 whenever dG <= 0 on every step of the suite, zero propagation / Rcrit >= Rmin / incubation factor in [0,1] / scalar = array on a dG grid for 5 site types, available sites non-negative and non-increasing with occupation. Observed under fixed tolerances: Clemm-Fisher identities and monotonicities on a k-grid.",
+             note="identities/monotonicities in k and dG are real-analytic facts judged as lt/eq/gt (observation level); known finding: negative barrier on grain-boundary-type sites under the minimum-radius clamp"),
 }
 
 NOT_APPLICABLE = {
